@@ -75,3 +75,12 @@ Definition reparse_check (j : json) : bool :=
   end.
 
 Definition show_idem (j : json) : string := show_bool (idem_check j) ++ "," ++ show_bool (reparse_check j).
+
+(* the canonical form of the piecewise-parsed parent equals that of the schema written inline,
+   and the inlined parent is self-contained *)
+Definition pw_check (pieces : list json) (raw : json) : bool :=
+  match piecewise_canonical pieces, to_canonical raw, piecewise_top pieces with
+  | POk a, POk b, POk (p, t) =>
+      String.eqb a b && match inline t p with POk q => closed q | _ => false end
+  | _, _, _ => false
+  end.
